@@ -36,6 +36,27 @@ def check(rep, tier, seed):
     dis = [(C.codec_line(c), a, b) for c, a, b in zip(cuts, impl, mod) if a != b and b != "fuel"]
     rep.coverage["model_fuel_on_zero_width_counts"] = zw_fuel
     bad = [(c, a) for c, a in zip(cuts, impl) if not a.startswith("err ")]
+    # encodings this writer never produces but must read: every sequence and map in the unknown-length form (what
+    # Scala writes for lists, what serialize_iterator writes without an exact size hint), cut at every position
+    ub = [dict(c) for c in base[:: (3 if tier == "quick" else 1)] if c["_t"][0] in ("seq", "map", "tup", "opt", "named", "res", "wrap")]
+    for c in ub:
+        c["cmd"] = "encu"
+    uenc = C._run_codec_side(model, ub, [C.codec_line(c) for c in ub], wd, "uenc", 16, 3000)
+    ucuts = []
+    for c, a in zip(ub, uenc):
+        if not a.startswith("ok "):
+            continue
+        hx = a.split(" ")[1]
+        if hx == "-":
+            continue
+        n = len(hx) // 2
+        ks = list(range(n)) if n <= maxcuts else sorted(set([0, 1, 2, n - 1, n - 2] + rng.sample(range(n), maxcuts - 5)))
+        for k in ks:
+            ucuts.append({"env": c["env"], "cmd": "dec", "ty": c["ty"], "hex": hx[:2 * k] or "-", "_full": n, "_k": k})
+    uimpl, umod = C.run_codec(harness, model, ucuts, wd, "ucut")
+    dis += [(C.codec_line(c), a, b) for c, a, b in zip(ucuts, uimpl, umod) if a != b and b != "fuel"]
+    ubad = [(c, a) for c, a in zip(ucuts, uimpl) if not a.startswith("err ")]
+    rep.coverage["unknown_form_cuts"] = {"prefixes": len(ucuts), "accepted": len(ubad)}
     # other definitions (the last clause of the property): data of version w >= 1 of a legal history cut at every
     # position and read by version r != w - older readers that do not know the last chunks, newer readers that
     # dropped fields. Theorem side: C08_any_accepted_input (+ C07_cross_version: the whole encoding is consumed).
@@ -66,7 +87,7 @@ def check(rep, tier, seed):
         k = a.split("(")[0]
         errs[k] = errs.get(k, 0) + 1
     rep.coverage.update({
-        "evaluations": len(cuts) + len(xcuts), "distinct_nontrivial": len(set(lines)),
+        "evaluations": len(cuts) + len(xcuts) + len(ucuts), "distinct_nontrivial": len(set(lines)),
         "rule": "encodings of the C01/C02 streams (built-in types to depth 5, derived and evolved records and enums, "
                 "nested) cut at every position (all cuts up to 40 bytes, 40 sampled cuts incl. the first and last two "
                 "beyond); every strict prefix must decode to Err (not Ok, not a panic) with the writing definition; "
@@ -74,6 +95,12 @@ def check(rep, tier, seed):
         "samples": lines[:3] + lines[-2:], "encodings_cut": len([a for a in impl_enc if a.startswith("ok ")]),
         "disagreements_checked": len(cuts), "disagreements": len(dis), "error_classes": errs,
     })
+    if ubad and not bad:
+        c, a = ubad[0]
+        rep.violation(f"a strict prefix ({c['_k']} of {c['_full']} bytes) of an unknown-length-form encoding is accepted: "
+                      f"{C.codec_line(c)[:140]} -> {a[:80]}",
+                      {"kind": "case", "env": c["env"], "case": C.codec_line(c), "implementation": a,
+                       "cut": c["_k"], "of": c["_full"], "n_failing": len(ubad)})
     if xbad and not bad:
         c, a = xbad[0]
         rep.violation(f"a strict prefix ({c['_k']} of {c['_full']} bytes) of version-{c['_w']} data is accepted by version {c['_r']}: "
@@ -86,4 +113,4 @@ def check(rep, tier, seed):
         rep.violation(f"a strict prefix ({c['_k']} of {c['_full']} bytes) is not rejected: {C.codec_line(c)[:160]} -> {a[:80]}",
                       {"kind": "case", "env": c["env"], "case": C.codec_line(c), "implementation": a,
                        "cut": c["_k"], "of": c["_full"], "n_failing": len(bad)})
-    C.report_broken(rep, ob, dis, "codec/dec-prefix", bool(bad) or bool(xbad))
+    C.report_broken(rep, ob, dis, "codec/dec-prefix", bool(bad) or bool(xbad) or bool(ubad))
